@@ -18,7 +18,7 @@ cd /verif
 RES=""
 for P in "$@"; do
   rm -rf /tmp/seedout.$$; 
-  PGV_REPO=$WT PGV_OUT=/tmp/seedout.$$ timeout -k 5 1500 ./check $P > $OUT/check_$P.log 2>&1; RC=$?
+  PGV_REPO=$WT PGV_OUT=/tmp/seedout.$$ timeout -k 5 2400 ./check $P > $OUT/check_$P.log 2>&1; RC=$?
   NV=$(grep -c "^VIOLATION" $OUT/check_$P.log)
   FIRST=$(grep "^  obligation" $OUT/check_$P.log | head -2 | cut -c1-220)
   echo "check $P: exit $RC, VIOLATION lines: $NV"; echo "$FIRST"
